@@ -811,6 +811,30 @@ func (x *Exec) binop(s *State, op token.Token, X, Y ssa.Value, rt types.Type, in
 		if b.IsInt() && b.Int.Sign() == 0 {
 			return a
 		}
+		// x | ite(c, k1, k2) with constant leaves: distribute, so that each branch is an OR with a constant
+		for i := 0; i < 2; i++ {
+			if b.Op == "ite" && iteConstLeaves(b, 0) && !signed {
+				var dist func(t *smt.Term) *smt.Term
+				dist = func(t *smt.Term) *smt.Term {
+					if t.Op == "ite" {
+						return smt.Ite(t.Args[0], dist(t.Args[1]), dist(t.Args[2]))
+					}
+					if t.Int.Sign() == 0 {
+						return a
+					}
+					r := a
+					for k := 0; k < t.Int.BitLen(); k++ {
+						if t.Int.Bit(k) == 1 {
+							has := smt.Mod(smt.Div(a, smt.IntB(pow2(k))), smt.IntC(2))
+							r = smt.Add(r, smt.Mul(smt.IntB(pow2(k)), smt.Sub(smt.IntC(1), has)))
+						}
+					}
+					return r
+				}
+				return dist(b)
+			}
+			a, b = b, a
+		}
 		// x | c for an unsigned x and a constant with few set bits: add every bit of c that x does not have
 		for i := 0; i < 2; i++ {
 			if b.IsInt() && b.Int.Sign() > 0 && !signed && b.Int.BitLen() <= bits {
@@ -846,6 +870,14 @@ func (x *Exec) binop(s *State, op token.Token, X, Y ssa.Value, rt types.Type, in
 	}
 	x.unsupported("binary op %s", op)
 	return smt.IntC(0)
+}
+
+// iteConstLeaves: t is an ite tree (depth <= 3) whose leaves are small non-negative integer constants
+func iteConstLeaves(t *smt.Term, depth int) bool {
+	if t.Op == "ite" {
+		return depth < 3 && iteConstLeaves(t.Args[1], depth+1) && iteConstLeaves(t.Args[2], depth+1)
+	}
+	return t.IsInt() && t.Int.Sign() >= 0 && t.Int.BitLen() <= 16
 }
 
 // shiftChain: ite(b = 0, f(0), ite(b = 1, f(1), ... ite(b = bits-1, f(bits-1), over)))
